@@ -1,4 +1,6 @@
 import IdModel.Store.Lemmas
+import IdModel.Store.Fragment
+import IdModel.Props.C10
 /-!
 # C09 — storage-backed method generation / purge is all-or-nothing under storage faults
 
@@ -306,6 +308,46 @@ theorem reachable_wf (ops : List SOp) : ∀ s, WF s → WF (ops.foldl sstep s) :
     cases op with
     | generate f fr sc => exact generate_wf s f fr sc h
     | purge f k => exact purge_wf s f k h
+
+/-! ## the fragment of a generated method (through the DID URL model of C10) -/
+
+open IdModel.Did IdModel.Props.C10 in
+/-- whatever string is given as the fragment (or taken from the JWK's `kid`): either constructing the method fails —
+and then the theorems above say nothing is left behind — or the method's fragment is a non-empty, syntactically
+valid DID URL fragment; deciding it never panics. -/
+theorem methodFragment_wf (did given f : Str) (h : methodFragment did given = some f) :
+    f ≠ [] ∧ Syntax (fun c => IsPChar c ∨ c = 47 ∨ c = 63) f := by
+  unfold methodFragment at h
+  cases hb : parseUrl did with
+  | panic m => simp [hb] at h
+  | err e => simp [hb] at h
+  | ok base =>
+    simp only [hb] at h
+    cases hj : join base (fragmentSegment given) with
+    | panic m => simp [hj] at h
+    | err e => simp [hj] at h
+    | ok u =>
+      simp only [hj] at h
+      have wf := join_wf base (fragmentSegment given) u hj
+      cases hf : u.fragment with
+      | none => simp [hf] at h
+      | some fr =>
+        obtain ⟨t, ht, hne, hs⟩ := wf.fragment fr hf
+        subst ht
+        have hstrip : stripPrefix1 35 (35 :: t) = t := by simp [stripPrefix1]
+        simp only [hf, Option.map_some, hstrip] at h
+        by_cases he : t.isEmpty = true
+        · simp [he] at h
+        · simp only [he, Bool.false_eq_true, ↓reduceIte, Option.some.injEq] at h
+          subst h; exact ⟨hne, hs⟩
+
+open IdModel.Did in
+/-- a fragment given with or without the leading `#` is the same fragment; a doubled `#` is none -/
+example : methodFragment ("did:ex:d0".toUTF8.toList.map (·.toNat)) [107, 49] = some [107, 49] ∧
+    methodFragment ("did:ex:d0".toUTF8.toList.map (·.toNat)) [35, 107, 49] = some [107, 49] ∧
+    methodFragment ("did:ex:d0".toUTF8.toList.map (·.toNat)) [35, 35, 107, 49] = none ∧
+    methodFragment ("did:ex:d0".toUTF8.toList.map (·.toNat)) [] = none := by
+  decide +kernel
 
 /-! ## non-vacuity -/
 
